@@ -21,6 +21,8 @@
                               best) on the first case of its order among ALL candidates then available;
     `C17_lexicase_multiplicity` — the output never holds more copies of an individual than the input;
     `C17_lexicase_total`    — it returns for every sound source whenever `k ≤ len`;
+    `C17_lexicase_uninformative_case` — a case on which all candidates agree (in the implementation: every candidate is
+                              NaN there) can be dropped from the case order, wherever it stands, without changing the survivors;
   * `C17_pinned_lexicase_witness` — the counterexample found on the tree before the `fix:` commit.
 -/
 import GEVerif.Model.Steps
@@ -282,5 +284,65 @@ example : (lexicaseGo scripted 2 [true, true] false 4 exPop ⟨[0, 1, 0], 0⟩).
 example : lexFilter false [true, true] [1, 0] exPop = [⟨2, 3, [1, 0]⟩] := by decide
 -- epsilon-lexicase keeps everything within the band (MAD of case 0 is 0.5 → band4 = 2)
 example : (lexFilter true [true, true] [0] exPop).map (·.id) = [0, 1] := by decide
+
+/-! ## uninformative cases -/
+
+/-- all candidates carry the same value on case `c` -/
+def Uninformative (c : Nat) (xs : List Ind) : Prop := ∀ x ∈ xs, ∀ y ∈ xs, compAt c x = compAt c y
+
+theorem Uninformative.sublist {c : Nat} {xs ys : List Ind} (h : Uninformative c xs) (hs : ys.Sublist xs) :
+    Uninformative c ys := fun x hx y hy => h x (hs.subset hx) y (hs.subset hy)
+
+private theorem bestOn_const (mn : Bool) (c : Nat) (xs : List Ind) (x : Ind) (hx : x ∈ xs) (h : Uninformative c xs) :
+    bestOn mn c xs = compAt c x := by
+  cases mn with
+  | true =>
+    have h1 := bestOn_min c xs x hx
+    obtain ⟨y, hy, hye⟩ := bestOn_mem true c xs (List.ne_nil_of_mem hx)
+    have := h x hx y hy
+    omega
+  | false =>
+    have h1 := bestOn_max c xs x hx
+    obtain ⟨y, hy, hye⟩ := bestOn_mem false c xs (List.ne_nil_of_mem hx)
+    have := h x hx y hy
+    omega
+
+/-- a case on which all candidates agree filters nothing out (plain and epsilon lexicase) -/
+theorem lexFilterCase_uninformative (eps mn : Bool) (c : Nat) (xs : List Ind) (h : Uninformative c xs) :
+    lexFilterCase eps mn c xs = xs := by
+  unfold lexFilterCase
+  apply List.filter_eq_self.2
+  intro x hx
+  have hb := bestOn_const mn c xs x hx h
+  have hband := band4_nonneg eps c xs
+  cases mn <;> simp <;> omega
+
+/-- **An uninformative case can be dropped from the case order, wherever it stands**: if all candidates agree on case `c`
+(in the implementation: every candidate is NaN there, no comparison tells them apart), the survivors of the lexicase filter
+for the order `pre ++ c :: post` are those for `pre ++ post`.  This is the model-side justification of judging a selection
+with such a case by the remaining cases. -/
+theorem C17_lexicase_uninformative_case (eps : Bool) (mins : List Bool) (c : Nat) (pre post : List Nat) (xs : List Ind)
+    (h : Uninformative c xs) :
+    lexFilter eps mins (pre ++ c :: post) xs = lexFilter eps mins (pre ++ post) xs := by
+  induction pre generalizing xs with
+  | nil =>
+    simp only [List.nil_append, lexFilter]
+    split
+    · rw [lexFilterCase_uninformative eps _ c xs h]
+    · rename_i hlen
+      -- at most one candidate: no case is consulted at all
+      cases post with
+      | nil => simp [lexFilter]
+      | cons p ps => simp [lexFilter, hlen]
+  | cons p pre ih =>
+    simp only [List.cons_append, lexFilter]
+    split
+    · exact ih _ (h.sublist (lexFilterCase_sublist _ _ _ _))
+    · rfl
+
+example : Uninformative 1 [⟨0, 3, [1, 7]⟩, ⟨1, 2, [0, 7]⟩, ⟨2, 2, [1, 7]⟩] := by
+  intro x hx y hy; simp at hx hy; rcases hx with rfl | rfl | rfl <;> rcases hy with rfl | rfl | rfl <;> decide
+example : lexFilter false [false, true] [1, 0] [⟨0, 3, [1, 7]⟩, ⟨1, 2, [0, 7]⟩, ⟨2, 2, [1, 7]⟩] =
+    lexFilter false [false, true] [0] [⟨0, 3, [1, 7]⟩, ⟨1, 2, [0, 7]⟩, ⟨2, 2, [1, 7]⟩] := by decide
 
 end GEVerif.C17
